@@ -216,7 +216,8 @@ def main():
     nLoops = 0
     average_loop = 0
     average_output = 0
-    startPrint = max(0, ti % saveStep)
+    # first slot of the diagnostics which has not yet been written to the file
+    startPrint = ti % saveStep + 1
     timeForLoop = True
     while (ti < tN and timeForLoop):
 
@@ -287,10 +288,11 @@ def main():
             diagnostics.reduce()
             if (rank == 0):
                 diagnosticFile = open(diagnostic_filename, "a")
-                for i in range(startPrint, min(saveStep, ti+1)):
+                # slot 0 holds the step which has just been completed
+                for i in [*range(startPrint, saveStep), 0]:
                     print(diagnostics.getLine(i), file=diagnosticFile)
                 diagnosticFile.close()
-            startPrint = 0
+            startPrint = 1
             output_time += (time.time()-output_start)
             average_output = output_time*saveStep/(nLoops+1)
 
@@ -310,7 +312,7 @@ def main():
         diagnostics.reduce()
         if (rank == 0):
             diagnosticFile = open(diagnostic_filename, "a")
-            for i in range(ti % saveStep):
+            for i in range(startPrint, ti % saveStep + 1):
                 print(diagnostics.getLine(i), file=diagnosticFile)
             diagnosticFile.close()
 
